@@ -121,9 +121,10 @@ func (seg Segment) IntersectsSegment(other Segment) bool {
 	if eqZero(rxs) {
 		return false // segments are parallel.
 	}
-	rxsr := 1 / rxs
-	t := cmpxs * rxsr
-	u := cmpxr * rxsr
+	// (divide, rather than multiply by the reciprocal: 1/rxs overflows when
+	// rxs is a denormal, which turns t or u into 0*Inf)
+	t := cmpxs / rxs
+	u := cmpxr / rxs
 	if !((t >= 0) && (t <= 1) && (u >= 0) && (u <= 1)) {
 		return false
 	}
